@@ -86,11 +86,26 @@ STRAND_VEC = {"counts", "weighted_counts", "means", "medians", "min_base_size_ma
 
 
 def units(tier, seed):
+    from .. import corpus
+
     n = 600 if tier == "quick" else 40000
-    return [{"i": i, "seed": seed} for i in range(n)]
+    out = [{"i": i, "seed": seed} for i in range(n)]
+    paths = corpus.fixture_paths()
+    reps = 1 if tier == "quick" else 12
+    for rep in range(reps):
+        for k in range(len(paths)):
+            out.append({"corpus": k, "rep": rep, "seed": seed})
+    return out
 
 
 def make_case(unit):
+    if "corpus" in unit:
+        from .. import corpus
+
+        rel = corpus.fixture_paths()[unit["corpus"]]
+        g = gen.G("C05c/%s/%s/%s" % (unit["seed"], unit["corpus"], unit["rep"]))
+        return {"fixture": rel, "transforms": corpus.random_display_transforms(
+            g, corpus.load(rel))}
     i = unit["i"]
     g = gen.G("C05/%s/%s" % (unit["seed"], i))
     template = TEMPLATES[i % len(TEMPLATES)]
@@ -180,7 +195,57 @@ def coords(order, subs):
     return out
 
 
+def _check_corpus(case):
+    """Fixture response + random legal display transforms vs the same response without."""
+    import json as _json
+    from cr.cube.cube import Cube
+    from .. import corpus
+
+    res = CaseResult()
+    res.classes.append("corpus")
+    resp = corpus.load(case["fixture"])
+    trT = case["transforms"]
+    cT = Cube(_json.loads(_json.dumps(resp)), transforms=copy.deepcopy(trT), population=1000)
+    cB = Cube(_json.loads(_json.dumps(resp)), transforms={}, population=1000)
+    res.descriptor = {"fixture": case["fixture"], "transforms": trT}
+    pT, pB = read(cT, "partitions"), read(cB, "partitions")
+    if not pT.ok or not pB.ok:
+        same = (not pT.ok) and (not pB.ok) and type(pT.exc) is type(pB.exc)
+        res.check("partitions_readable", same, "corpus/exception/partitions",
+                  {"T": repr(pT.exc), "B": repr(pB.exc)})
+        return res
+    changed = False
+    for partT, partB in zip(pT.value, pB.value):
+        nd = len(read(partT, "shape").value) if read(partT, "shape").ok else 0
+        if nd != 2:
+            res.skipped["corpus_non_2d"] += 1
+            continue
+        coordsT = [corpus.public_coords(partT, a) for a in (0, 1)]
+        coordsB = [corpus.public_coords(partB, a) for a in (0, 1)]
+        if None in coordsT or None in coordsB:
+            res.check("order_readable", False, "corpus/exception/order", None)
+            continue
+        dts = read(partT, "dimension_types")
+        array_names = ("MR_SUBVAR", "CA_SUBVAR", "NUM_ARRAY")
+        row_cat = dts.ok and dts.value[0].name not in array_names
+        col_cat = dts.ok and dts.value[1].name not in array_names
+        ch = coordsT[0] != coordsB[0] or coordsT[1] != coordsB[1]
+        changed |= ch
+        before = len(res.violations)
+        slice_core(res, partT, partB, coordsT[0], coordsT[1], coordsB[0], coordsB[1], ch,
+                   row_cat, col_cat)
+        for v in res.violations[before:]:
+            v["key"] = "corpus/" + v["key"] if not v["key"].startswith(
+                ("matrix/rows_margin_proportion", "matrix/columns_margin_proportion",
+                 "outcome/rows_margin_proportion", "outcome/columns_margin_proportion")) \
+                else v["key"]
+    res.nontrivial = changed
+    return res
+
+
 def check_case(case):
+    if "fixture" in case:
+        return _check_corpus(case)
     res = CaseResult()
     trT = case.get("transforms") or {}
     trB = T.strip_display(trT)
@@ -244,9 +309,20 @@ def _slice(res, LT, LB, t, partT, partB, trT, trB):
         return False
     rT, cT = coords(roT, rsT), coords(coT, csT)
     rB, cB = coords(roB, rsB), coords(coB, csB)
+    row_cat, col_cat = o.typestr(R) == "CAT", o.typestr(C) == "CAT"
+    return slice_core(res, partT, partB, rT, cT, rB, cB, roT != roB or coT != coB, row_cat,
+                      col_cat)
+
+
+def slice_core(res, partT, partB, rT, cT, rB, cB, changed, row_cat, col_cat):
+    """Compare every public output of partT with partB re-indexed by canonical coordinates.
+
+    rT/cT/rB/cB: per display position a tuple whose first two items identify the element or
+    subtotal ("e", idx) / ("s", name[, k]).
+    """
     # no element or subtotal listed twice
     for name, cc in (("row_order", rT), ("column_order", cT)):
-        keys = [c[:2] if c[0] == "e" else ("s", c[2]) for c in cc]
+        keys = [c[:2] if c[0] == "e" else ("s", c[-1]) for c in cc]
         res.check("no_duplicates", len(set(keys)) == len(keys), "duplicates/%s" % name,
                   {"order": [list(c) for c in cc]})
     ri, ci = _reindex_positions(rT, rB), _reindex_positions(cT, cB)
@@ -258,8 +334,6 @@ def _slice(res, LT, LB, t, partT, partB, trT, trB):
     shape = read(partT, "shape")
     res.check("extent", shape.ok and tuple(shape.value) == (nr, nc), "extent/shape",
               {"shape": repr(shape)[:80], "orders": [nr, nc]})
-    changed = (roT != roB) or (coT != coB)
-    row_cat, col_cat = o.typestr(R) == "CAT", o.typestr(C) == "CAT"
 
     def kind_of(name, vT):
         if name in MATRIX:
@@ -336,7 +410,7 @@ def _slice(res, LT, LB, t, partT, partB, trT, trB):
             _compare(res, name, k, gT.value, gB.value, ri, ci, nr, nc, rT, cT, rB, cB)
     # objects with several arrays
     mT, mB = read(partT, "min_base_size_mask"), read(partB, "min_base_size_mask")
-    if mT.ok and mB.ok:
+    if mT.ok and mB.ok and not empty:
         for a in ("row_mask", "column_mask", "table_mask"):
             _compare(res, "min_base_size_mask." + a, "matrix", read(mT.value, a).value,
                      read(mB.value, a).value, ri, ci, nr, nc, rT, cT, rB, cB)
